@@ -19,7 +19,7 @@
 //	gc <G>                                  -> n=.. dg=.. ch=..
 //	reset                                   -> ok                (restart / reopen from the root hash)
 //	get <h> <key>                           -> <value> | none    (historic read at the root of height h)
-//	restore <k>=<v>,...                     -> r=<root> n=.. dg=.. ch=..   (Billet restore into an empty store)
+//	restore <idx> <k>=<v>,...               -> r=<root> n=.. dg=.. ch=..   (Billet restore of the state of height idx into an empty store)
 //	wild                                    -> ok                (the rest of the case is not compared)
 //	sub: p:<key>:<val>  d:<key>  b:<key>=<val|del>,...
 package main
@@ -80,7 +80,7 @@ func runCase(o *hx.Out, f *hx.Flags, k int) {
 		runChainCase(o, f, k, r)
 		return
 	}
-	if k%11 == 5 {
+	if k%6 == 2 {
 		runRestoreCase(o, f, k, r)
 		return
 	}
@@ -88,16 +88,19 @@ func runCase(o *hx.Out, f *hx.Flags, k int) {
 	runAPICase(o, f, k, r, c)
 }
 
-func newMachine(c combo) machine {
+func newMachine(c combo, lower string) machine {
 	if c.level == "trie" {
-		return newTrieM(c.mode)
+		return newTrieMOn(c.mode, lower)
 	}
-	return newModM(c.mode)
+	return newModMOn(c.mode, lower)
 }
 
 func runAPICase(o *hx.Out, f *hx.Flags, k int, r *prng.R, c combo) {
 	o.Count("case:" + c.level + "/" + c.mode)
-	m := newMachine(c)
+	lower := []string{"mem", "copy", "bolt"}[r.Weighted([]int{5, 4, 1})]
+	o.Count("lower:" + lower)
+	m := newMachine(c, lower)
+	defer m.(interface{ Close() }).Close()
 	h := newHist(o, k, c.mode, m)
 	big := r.Chance(1, 4)
 	g := newGen(r, o, big)
